@@ -137,7 +137,7 @@ func (p *c19) Run(c fw.Case) fw.Result {
 	tpls := map[[2]int][]tplSpec{}
 	tr := r.Fork("templates")
 	k := tplsPerRun(c.Tier)
-	obsA, err := observeTwin(twinA, seed, tpls, func(si, ri int, nodes []wnode) []tplSpec { return genTemplates(tr, nodes, k) }, true)
+	obsA, err := observeTwin(twinA, seed, tpls, func(si, ri int, nodes []wnode) []tplSpec { return genTemplates(tr, nodes, k) }, obsOpts{withEvents: true})
 	if err != nil {
 		res.Discarded = "unloadable: " + errClass(err.Error())
 		return res
@@ -146,7 +146,7 @@ func (p *c19) Run(c fw.Case) fw.Result {
 		res.Discarded = "unreadable trigger: " + obsA.unreadable
 		return res
 	}
-	obsB, err := observeTwin(twinB, seed, tpls, nil, true)
+	obsB, err := observeTwin(twinB, seed, tpls, nil, obsOpts{withEvents: true})
 	if err != nil {
 		// same assets: cannot happen unless loading depends on the URNs
 		res.Violate("C19|twins-diverge|assets-load", "twin B does not load although twin A does: "+err.Error(), witness(nil))
@@ -168,8 +168,8 @@ func (p *c19) Run(c fw.Case) fw.Result {
 	}
 
 	// --- control: the same pair without redaction must be told apart by the same walk
-	ctlA, errA := observeTwin(twinOf(base, ra, "none"), seed, nil, nil, false)
-	ctlB, errB := observeTwin(twinOf(base, rb, "none"), seed, nil, nil, false)
+	ctlA, errA := observeTwin(twinOf(base, ra, "none"), seed, nil, nil, obsOpts{})
+	ctlB, errB := observeTwin(twinOf(base, rb, "none"), seed, nil, nil, obsOpts{})
 	if errA == nil && errB == nil {
 		control(&res, ctlA, ctlB, contactURNsDiffer(twinA, twinB), func(extra map[string]any) map[string]any {
 			w := witness(extra)
